@@ -1172,7 +1172,7 @@ def emit_c05(g):
 		verifReach("end")
 		return
 	}
-	d := refGen(&s, "d", 0)
+	d := refGenWire(&s, "d", 0)
 	enc := refEncode(&s, &d, nil)
 	r := %(av)sNewReadBuf(enc)
 	_ = c.Read(r, unsafe.Pointer(&out))
